@@ -24,6 +24,7 @@ class Ob:
     file: str = ""
     line: int = 0
     msg: str = ""
+    code: str = ""           # what is wrong (violation kind + the essential literal), so that a *different* defect at a listed site is not masked
 
     def ident(self) -> Tuple[str, str, str]:
         return (self.rule, self.where, self.key)
@@ -36,8 +37,10 @@ def ok(rule, fi_or_where, key, props, node=None, msg="") -> Ob:
     return _mk(rule, fi_or_where, key, "ok", props, node, msg)
 
 
-def bad(rule, fi_or_where, key, props, node=None, msg="") -> Ob:
-    return _mk(rule, fi_or_where, key, "violation", props, node, msg)
+def bad(rule, fi_or_where, key, props, node=None, msg="", code="") -> Ob:
+    o = _mk(rule, fi_or_where, key, "violation", props, node, msg)
+    o.code = code
+    return o
 
 
 def skip(rule, fi_or_where, key, props, node=None, msg="") -> Ob:
@@ -70,7 +73,8 @@ def load_known() -> Dict[str, list]:
 
 def known_match(prop: str, ob: Ob, known: list) -> Optional[dict]:
     for k in known:
-        if k.get("rule") == ob.rule and k.get("where") == ob.where and k.get("key") == ob.key and prop in k.get("properties", [k.get("property")]):
+        if k.get("rule") == ob.rule and k.get("where") == ob.where and k.get("key") == ob.key and prop in k.get("properties", [k.get("property")]) \
+                and ("code" not in k or k["code"] == ob.code):
             return k
     return None
 
